@@ -7,6 +7,7 @@ Require Import BB.Base.Str BB.Base.Xml BB.Model.PegSyntax BB.Model.Unparse.
 Require Import BB.Gen.Grammar BB.Gen.TablesTypes BB.Gen.TablesXsl.
 Require Import BB.Proofs.Tables BB.Model.UnparseDoc BB.Proofs.UnparseText.
 Require Import BB.Model.EidSpec BB.Proofs.UnparseEids.
+Require Import BB.Base.Dict BB.Model.Types BB.Model.Peg BB.Gen.TablesParser BB.Model.Convert BB.Model.Eid BB.Model.EidSpec BB.Model.PreParse BB.Model.XmlGen BB.Gen.TablesLibs BB.Proofs.Totality BB.Proofs.PlainLineConvert BB.Proofs.ParagraphRoundTrip.
 
 (* every element of the hierarchical template is printed with a keyword the parser reads back as
    the same element (other has no keyword: listed gap, it is unparsed by the catch-all template) *)
@@ -52,3 +53,22 @@ Print Assumptions C05_unparse_ignores_eids.
 
 Example C05_example : (length xsl_hier_elements = 53)%nat /\ hier_keyword (of_string "subsection") = of_string "SUBSEC".
 Proof. split; vm_compute; reflexivity. Qed.
+
+(* The round trip of a paragraph through the WHOLE pipeline model.  For every FRBR URI the model knows, every eId prefix and
+   every text s without tab or line break, without blanks at its ends and made of characters XML can hold - whatever it spells:
+   keywords, markers, braces, backslashes - unparsing <p eId="<prefix>__p_1">s</p> and converting the written text (pre_parse,
+   grammar, to_dict, XML builder, footnote resolution, normalisation, eId generation, attachment titles) gives that very element. *)
+Theorem C05_paragraph_round_trip : forall uri prefix s root_meta att_meta,
+  assoc_str uri meta_templates = Some (root_meta, att_meta) ->
+  Forall scalar s -> Forall (fun c => c <> TAB /\ c <> 10 /\ c <> 13) s -> edge_ok s -> valid_text s = true ->
+  let x := para (candidate prefix P_TAG (of_string "1")) s in
+  convert uri (of_string "hier_block_element") prefix (unparse_doc x) = OkR x.
+Proof. exact paragraph_round_trip. Qed.
+Print Assumptions C05_paragraph_round_trip.
+
+(* the instance the theorem predicts, evaluated: a paragraph that spells a keyword line with every kind of marker *)
+Example C05_round_trip_example :
+  let s := of_string "PART 1 - **x** {{^y}} \\ //z__ P{a b} {{*r}}" in
+  let x := para (of_string "sec_2__p_1") s in
+  convert (of_string "/akn/za/act/2009/1") (of_string "hier_block_element") (of_string "sec_2") (unparse_doc x) = OkR x.
+Proof. vm_compute. reflexivity. Qed.
